@@ -113,6 +113,22 @@ CHECKS = {
     design_ref="DESIGN.md §6 C09",
     note="The 5-letter alphabet abstraction relies on the scan comparing only against the bytes of 'LOBJ'.",
     technique="TLA+ automaton + TLC exhaustive enumeration + vector replay (M3) + session M1 edge replay"),
+ "C10": dict(
+    category="model_checking",
+    text=("ReadSession is run in hostile configurations (object sizes below/above their layout, beyond the file, below "
+          "the base header; damaged deflate stream; non-container object at container level; std::bad_alloc inside a "
+          "worker): TLC checks DeadlockFree, Termination (weak fairness) and the delivery invariants for all "
+          "interleavings and every edge is replayed on the real File. Resync.tla's stream-end mode shows the signature "
+          "scan always ends. The property's enumerations are then executed on the real code: every single-byte "
+          "substitution with boundary values, aligned 16/32-bit overwrites, every truncation, block duplication/"
+          "deletion and seeded random 16/32-bit values on library-built files (9 object kinds, level 0 and 6) and "
+          "reference logs - each file opened/read/closed in an ASan+UBSan build under the controlled scheduler with a "
+          "256 MiB allocation cap; sanitizer report, escaping exception, dead-/live-lock or endless object stream is a "
+          "violation."),
+    design_ref="DESIGN.md §6 C10, §8",
+    note=("Absence of undefined behaviour is observed by the sanitizers on the enumerated executions, not deduced from "
+          "the spec; one seeded schedule per hostile file."),
+    technique="TLA+ hostile session configurations + TLC + M1 edge replay; spec-enumerated fault vectors under ASan/UBSan with exact hang verdicts"),
  "C11": dict(
     category="model_checking",
     text=("Ownership ghost in the session specs (NoStaleAccess, Accounted, AllDeleted) checked by TLC for all "
